@@ -37,13 +37,13 @@ Proof. exact fold_ok. Qed.
 (* ---- tie to the current source (tools/ga2coq, coq/gen/GenDeleg.v): the bodies of the trait
         impls as they stand in the source now are the delegations the model implements ---- *)
 From Coq Require Import String.
-From GA Require Import Deleg DelegTie.
+From GA Require Import Deleg.
 From GAGen Require Import GenDeleg.
 Local Open Scope string_scope.
 Theorem C08_source_clone_default :
   lookup "Clone::clone" gen_delegations = Some (DMap VSelf "Clone::clone") /\
   lookup "Default::default" gen_delegations = Some (DGenerate "T::default").
-Proof. rewrite !tie_deleg_of. repeat split. Qed.
+Proof. repeat split. Qed.
 
 (* ---- tier T3 (coq/gen/GenPipe.v, theories/Pipe.v, theories/PipeTie.v): the regenerated bodies of
         map / inverted_zip / fold / generate, executed statement by statement, call the caller's
@@ -76,7 +76,7 @@ Proof. exact (fun f g => src_generate_spec f g None). Qed.
 
 (* ---- T1: which trait methods are implemented (coq/gen/GenSigs.v gen_impl_methods) ---- *)
 From Coq Require Import String.
-From GA Require Import SigTie.
+From GA Require Import SigDefs.
 From GAGen Require Import GenSigs.
 Local Open Scope string_scope.
 
@@ -92,7 +92,7 @@ Proof. repeat split. Qed.
 (* ---- T1: the one-expression bodies this property's code consists of besides the modelled core, as they stand
         in the source now (coq/gen/GenSigs.v gen_thin_bodies) ---- *)
 From Coq Require Import String.
-From GA Require Import SigTie.
+From GA Require Import SigDefs.
 From GAGen Require Import GenSigs.
 Local Open Scope string_scope.
 
